@@ -100,6 +100,30 @@ known('C06', 'C06|ImperialistCompetitiveOptimization|IndexError|random_selection
       'Imperialist Competitive: empire probabilities exp(-alpha*cost/max cost) become NaN when the maximal empire cost '
       'is 0 (tie-heavy objective with exact zeros); random_selection then finds no index',
       'ImperialistCompetitiveOptimization, cont3z, plateau objective, seed 5')
+known('C01', 'C01|FoxOptimization|continuous-nan',
+      'Fox: the NaN candidate of the C05 finding is REPORTED when the objective maps NaN to an ordinary cost (a step / count '
+      'objective: comparisons with NaN are False, so the cost is 0 and the candidate wins the greedy selection)',
+      'FoxOptimization, cont3z min, step objective, seed 0')
+known('C05', 'C05|BacterialForagingOptimization|continuous-nan',
+      'Bacterial Foraging normalises the tumble direction by its norm and the health by cost differences: 0/0 when every '
+      'bacterium has exactly the same cost (constant objective)', 'BacterialForagingOptimization, cont3z, constant-zero objective')
+known('C06', 'C06|BiogeographyBasedOptimization|ValueError|roulette_wheel_indexes|probabilities contain NaN',
+      'Biogeography-Based: roulette probabilities 0/0 when all habitats have the same cost (constant objective)',
+      'BiogeographyBasedOptimization, cont3z, constant-zero objective')
+known('C06', 'C06|WaterCycleOptimization|ValueError|after_initialization|Negative dimensions are not allowed',
+      'Water Cycle: stream shares are |cost| / sum(cost) - NaN for an all-zero population, the rounded shares are garbage',
+      'WaterCycleOptimization, cont3z, constant-zero objective')
+known('C05', 'C05|FishSchoolSearchOptimization|continuous-nan',
+      'Fish School Search with w_scale=0.0 (accepted by the validator): weights 0/0', 'FishSchoolSearchOptimization, w_scale=0.0')
+known('C01', 'C01|FishSchoolSearchOptimization|continuous-nan',
+      'Fish School Search with w_scale=0.0: the NaN positions are kept and reported', 'FishSchoolSearchOptimization, w_scale=0.0')
+known('C06', 'C06|AntColonyOptimization|ValueError|roulette_wheel_indexes|probabilities contain NaN',
+      'Ant Colony with intent_factor=0.0 (accepted): archive weights 0/0', 'AntColonyOptimization, intent_factor=0.0')
+known('C06', 'C06|MonarchButterflyOptimization|IndexError|optimization_step|list index out of range',
+      'Monarch Butterfly with partition=0.0 (accepted): land 1 is empty and then indexed', 'MonarchButterflyOptimization, partition=0.0')
+known('C01', 'C01|KrillHerdOptimization|continuous-nan',
+      'Krill Herd: the 0/0 of the C05 finding (ties) is reported when the objective maps NaN to an ordinary cost (step objective)',
+      'KrillHerdOptimization, cont3z, step objective, seed 1')
 
 FIXED = [
     "fixed: property=C07 0d03759 Task.seed typed float: every seeded run raised TypeError in np.random.seed",
